@@ -225,12 +225,11 @@ def track_orderings(T, pairs):
     """flow hooks (on_edge, on_event) that remember path-sensitively what the last branch testing each named pair (a, b) implied:
     site.env['%o:name'] is a string over '<=>' (absent: never tested on this path, or an operand was assigned since)"""
     forms = {name: (T.form(a), T.form(b)) for name, (a, b) in pairs.items()}
-    base = {name: orderings(T, _Edge([]), a, b)[0] for name, (a, b) in forms.items()}
 
     def on_edge(blk, lab, imp, env2, f2):
         for name, (a, b) in forms.items():
             allowed = orderings(T, _Edge(imp), a, b)[0]
-            if allowed != base[name]:
+            if allowed != orderings(T, _Edge([]), a, b)[0]:         # this edge says something about the pair
                 env2["%o:" + name] = "".join(sorted(allowed))
 
     def on_event(ev, env, facts):
